@@ -348,7 +348,7 @@ def check_string_positions(chk, tus):
     for name in NASTY:
         mk = lambda: M.build(it, types=[([], [])], func_imports=[], functions=[0], memory_imports=[(name, 'mem' + name, 1, 2, False)],
                              global_imports=[('m' + name, name, 'i32', False)], exports=[(name, c06.KIND_FUNC, 0)])
-        text = c06.inits_text(it, mk)
+        text = c06.inits_text(it, mk, raw=True)
         label = repr(name)
         # resolve("<module>", "<field>")
         for m in re.finditer(r'(?s)resolve\((.*?)\);\n', text):
@@ -363,7 +363,7 @@ def check_string_positions(chk, tus):
                        'name (a quote, backslash or line break in a valid wasm name breaks or changes the generated C)' % (label, inner[:80]),
                        'wasmCWriteInitImportValue:string-literal')
         # FuncExports rows  {(wasmFunc)f0,"<name>"},
-        rows = re.findall(r'(?s)\{\(wasmFunc\)\w+,(.*?)\},\n', text)
+        rows = re.findall(r'(?s)\{\s*\(wasmFunc\)\s*\(?&?\w+\)?\s*,\s*(".*?")\s*\}\s*,\s*\n', text)
         chk.require(rows, 'FuncExports row not found for %s' % label)
         for r_ in rows:
             lit = _one_literal(r_)
